@@ -151,6 +151,8 @@ func (g *gen) shareStructure(d *DocSpec) {
 		d.Subslice = []string{"page", "nums", "2"}
 	} else if g.w.Chance(1, 5) {
 		d.Typed = true
+	} else if g.w.Chance(1, 3) {
+		d.Carve = true
 	}
 }
 
@@ -252,6 +254,11 @@ func (g *gen) history(spec *Spec) {
 		}
 		switch c := g.w.Intn(12); {
 		case c < 6:
+			if e.Vars != nil && g.w.Chance(1, 2) {
+				// the variable the program reads is registered again with
+				// another document (same name, new value) before this call
+				ops = append(ops, Op{Kind: "erebind", Expr: e.ID, Vars: map[string]string{"dv": spec.Docs[g.w.Intn(nd)].ID}})
+			}
 			op := Op{Kind: "eval", Expr: e.ID, Doc: d}
 			if g.f.Chance(1, 4) {
 				op.Fault = g.faultFor(e.Text, []string{"abort", "abort", "ext-error", "ext-panic", "ext-undefined"})
@@ -639,6 +646,14 @@ var extPrograms = []work.Program{
 	{Text: `$xboth(name, 1)`, Family: "ext"},
 	{Text: `$xboth(nosuch, 1)`, Family: "ext"},
 	{Text: `nest.c.$xboth($$.nosuch) & "|" & $xboth(one.k, nosuch)`, Family: "ext"},
+	// an Optional trailing parameter and an UndefinedHandler that asks about it
+	{Text: `$xopt(n)`, Family: "ext"},
+	{Text: `$xopt(n, name)`, Family: "ext"},
+	{Text: `$xopt(nosuch)`, Family: "ext"},
+	{Text: `$xopt(n, nosuch)`, Family: "ext"},
+	{Text: `items.$xopt(q)`, Family: "ext"},
+	{Text: `$map(nums, $xopt)`, Family: "ext"},
+	{Text: `$xopt(?, "p")(n) & $xopt(n)`, Family: "ext"},
 }
 
 func (g *gen) extFaults(spec *Spec) {
@@ -724,7 +739,7 @@ func (g *gen) frameSeq(spec *Spec) {
 		// sub-structures of d0 registered as variables on their own
 		d0 := spec.Docs[0]
 		for _, m := range []string{"nums", "items", "one"} {
-			spec.Docs = append(spec.Docs, DocSpec{ID: "d0." + m, JSON: d0.JSON, Alias: d0.Alias, Subslice: d0.Subslice, Typed: d0.Typed, Member: m, Parent: "d0"})
+			spec.Docs = append(spec.Docs, DocSpec{ID: "d0." + m, JSON: d0.JSON, Alias: d0.Alias, Subslice: d0.Subslice, Typed: d0.Typed, Carve: d0.Carve, Member: m, Parent: "d0"})
 		}
 		k := g.w.Range(1, 3)
 		for i := 0; i < k; i++ {
